@@ -419,7 +419,7 @@ func init() {
 		Title: "Tree passes reach every node once, in the documented order",
 		Plan: func(tier string, seed int64) []run.Job {
 			var jobs []run.Job
-			n, per := 16, 2500
+			n, per := 16, 10000
 			if tier == "thorough" {
 				n, per = 64, 20000
 			}
